@@ -44,6 +44,8 @@ type Spec struct {
 	MaxPaths      int                  `json:"max_paths"`
 	Note          string               `json:"note"`
 	Overrides     map[string]string    `json:"overrides"`
+	MaxCaseS      int                  `json:"max_case_s"`
+	ExtraFiles    []string             `json:"extra_files"`
 	OpaqueIntText bool                 `json:"opaque_int_text"`
 }
 
@@ -96,10 +98,16 @@ func main() {
 	}
 }
 
-func harnessOverlay(harnessDir, rtFile string) map[string][]byte {
+// harnessOverlay maps the harness sources into /repo; with a property id only
+// zz_verif_<prop>*.go and the named extra files are included, so that another
+// property's half-edited harness cannot break this run.
+func harnessOverlay(harnessDir, rtFile, prop string, extra map[string]bool) map[string][]byte {
 	ov := map[string][]byte{}
 	filepath.Walk(harnessDir, func(p string, fi os.FileInfo, err error) error {
 		if err != nil || fi.IsDir() || !strings.HasSuffix(p, ".go") {
+			return nil
+		}
+		if base := filepath.Base(p); prop != "" && !strings.HasPrefix(base, "zz_verif_"+strings.ToLower(prop)) && !extra[base] {
 			return nil
 		}
 		rel, _ := filepath.Rel(harnessDir, p)
@@ -238,6 +246,7 @@ func cmdRun(argv []string) {
 	paramsFlag := fs.String("params", "", "override: single case, comma separated ints")
 	fs.BoolVar(&verbose, "v", false, "verbose")
 	fs.BoolVar(&stopFirst, "first", false, "stop a case at its first violation")
+	fs.StringVar(&fallbackSolver, "fallback", "cvc5", "second solver asked when the first answers unknown (empty: none)")
 	fs.Parse(argv)
 	t0 := time.Now()
 	probeID = *probe
@@ -273,7 +282,13 @@ func cmdRun(argv []string) {
 	if len(sel) == 0 {
 		fatalf("no obligations selected")
 	}
-	prog, pkgs := loadProgram(harnessOverlay(*harnessDir, *rtFile), append(append([]string{}, loadPatterns...), "./zzvrt"))
+	extra := map[string]bool{}
+	for _, s := range sel {
+		for _, f := range s.ExtraFiles {
+			extra[f] = true
+		}
+	}
+	prog, pkgs := loadProgram(harnessOverlay(*harnessDir, *rtFile, *prop, extra), append(append([]string{}, loadPatterns...), "./zzvrt"))
 	modPath := ""
 	for _, p := range pkgs {
 		if p.Module != nil {
@@ -375,6 +390,10 @@ func cmdRun(argv []string) {
 		res.Cases = append(res.Cases, cr)
 		mergeStats(&total, &in.ex.stats)
 		sv.close()
+		if in.ex.solver2 != nil {
+			solvers = append(solvers, in.ex.solver2)
+			in.ex.solver2.close()
+		}
 	}
 	q, sat, unsat, unk, errs := 0, 0, 0, 0, 0
 	var st time.Duration
@@ -445,6 +464,7 @@ func mergeStats(dst, src *Stats) {
 	dst.AssertUnknown += src.AssertUnknown
 	dst.AssertFolded += src.AssertFolded
 	dst.FeasUnknown += src.FeasUnknown
+	dst.FallbackDecided += src.FallbackDecided
 	for k, v := range src.Unsupported {
 		dst.Unsupported[k] += v
 	}
@@ -532,6 +552,11 @@ func runCase(spec Spec, params []int64, sv *Solver, res *ShardResult) CaseResult
 	}
 	seenViol := map[string]bool{}
 	for len(ex.work) > 0 {
+		if limit := caseLimit(spec); time.Since(t0) > limit {
+			cr.Truncated = true
+			cr.Inconclusive = append(cr.Inconclusive, fmt.Sprintf("case time budget %s exhausted with %d paths pending", limit, len(ex.work)))
+			break
+		}
 		if ex.stats.Paths >= maxPaths {
 			cr.Truncated = true
 			cr.Inconclusive = append(cr.Inconclusive, fmt.Sprintf("path budget %d exhausted with %d paths pending", maxPaths, len(ex.work)))
@@ -603,6 +628,13 @@ func runCase(spec Spec, params []int64, sv *Solver, res *ShardResult) CaseResult
 	sort.Strings(cr.Reached)
 	cr.WallS = time.Since(t0).Seconds()
 	return cr
+}
+
+func caseLimit(spec Spec) time.Duration {
+	if spec.MaxCaseS > 0 {
+		return time.Duration(spec.MaxCaseS) * time.Second
+	}
+	return 600 * time.Second
 }
 
 func appendCapped(s []string, m string) []string {
